@@ -11,7 +11,6 @@ open GoaktVerif.Model.C47
 def holds : Pc → Nat
   | .running tok => if tok then 1 else 0
   | .recEval tok _ => if tok then 1 else 0
-  | .recReadState tok => if tok then 1 else 0
   | .recToClosed tok => if tok then 1 else 0
   | .rel tok => if tok then 1 else 0
   | _ => 0
@@ -56,6 +55,14 @@ theorem transitionTo_sem (cf : Conf) (now : Int) (t : St) (b : Br) : (transition
   · rfl
   · cases t <;> rfl
 
+theorem openToHalfOpen_sem (now : Int) (b : Br) : (openToHalfOpen now b).2.sem = b.sem := by
+  unfold openToHalfOpen; split
+  · rfl
+  · split <;> rfl
+
+theorem halfOpenToClosed_sem (now : Int) (b : Br) : (halfOpenToClosed now b).sem = b.sem := by
+  unfold halfOpenToClosed; split <;> rfl
+
 /-- semaphore accounting of one atomic step -/
 theorem pcStep_sem (cf : Conf) (now : Int) (b b' : Br) (o : Outcome) (pc pc' : Pc)
     (h : pcStep cf now b o pc = some (b', pc')) (hle : b.sem ≤ cf.hmax) (hh : holds pc ≤ b.sem) :
@@ -65,13 +72,11 @@ theorem pcStep_sem (cf : Conf) (now : Int) (b b' : Br) (o : Outcome) (pc pc' : P
     simp only [pcStep] at h
     cases hs : b.state <;> simp only [hs, Option.some.injEq, Prod.mk.injEq] at h <;>
       (obtain ⟨rfl, rfl⟩ := h; simp [holds, hle])
-  | acqCheck =>
+  | acqOpen =>
     simp only [pcStep] at h
-    split at h <;> (simp only [Option.some.injEq, Prod.mk.injEq] at h; obtain ⟨rfl, rfl⟩ := h; simp [holds, hle])
-  | acqToHalf =>
-    simp only [pcStep, Option.some.injEq, Prod.mk.injEq] at h
-    obtain ⟨rfl, rfl⟩ := h
-    simp [holds, transitionTo_sem, hle]
+    have hsem := openToHalfOpen_sem now b
+    cases hr : (openToHalfOpen now b).1 <;> simp only [hr, Option.some.injEq, Prod.mk.injEq] at h <;>
+      (obtain ⟨rfl, rfl⟩ := h; simp [holds, hsem, hle])
   | acqSem =>
     simp only [pcStep, trySem] at h
     by_cases hc : b.sem < cf.hmax
@@ -93,13 +98,10 @@ theorem pcStep_sem (cf : Conf) (now : Int) (b b' : Br) (o : Outcome) (pc pc' : P
     · simp only [Option.some.injEq, Prod.mk.injEq] at h; obtain ⟨rfl, rfl⟩ := h; simp [holds, hle]
     · split at h <;>
         (simp only [Option.some.injEq, Prod.mk.injEq] at h; obtain ⟨rfl, rfl⟩ := h; simp [holds, transitionTo_sem, hle])
-  | recReadState tok =>
-    simp only [pcStep] at h
-    split at h <;> (simp only [Option.some.injEq, Prod.mk.injEq] at h; obtain ⟨rfl, rfl⟩ := h; simp [holds, hle])
   | recToClosed tok =>
     simp only [pcStep, Option.some.injEq, Prod.mk.injEq] at h
     obtain ⟨rfl, rfl⟩ := h
-    simp [holds, transitionTo_sem, hle]
+    simp [holds, halfOpenToClosed_sem, hle]
   | rel tok =>
     simp only [pcStep, Option.some.injEq, Prod.mk.injEq] at h
     obtain ⟨rfl, rfl⟩ := h
